@@ -22,8 +22,62 @@ def user_iter(name, cnt, local, n, k=10):
     return [("set", cnt, ("mut", INT, I(0))), ("fndecl", name, [], tup(BOOL, INT), body)]
 
 
+def operator_internal_names():
+    """every name the operator implementations of the CURRENT source bind: `insert("name", ..)` calls and the
+    parameters / declarations / destructuring targets of the SimpleSL helper sources embedded in the crate"""
+    import glob
+    import os
+    import re
+    from vlib import REPO
+    names = set()
+    for path in glob.glob(os.path.join(REPO, "src", "**", "*.rs"), recursive=True):
+        if path.endswith("verif.rs"):
+            continue
+        text = open(path, encoding="utf-8").read()
+        if "mod tests" in text:
+            text = text[:text.index("mod tests")]
+        for m in re.finditer(r'insert\(\s*"([A-Za-z_][A-Za-z_0-9]*)"', text):
+            names.add(m.group(1))
+        rel = os.path.relpath(path, REPO)
+        embedded = rel.startswith("src/stdlib/operators") or any(x in rel for x in (
+            "bin_op/map.rs", "bin_op/filter.rs", "bin_op/partition.rs", "unary_operation/iter.rs", "type_filter.rs", "reduce"))
+        if not embedded:
+            continue
+        for m in re.finditer(r"\b([A-Za-z_][A-Za-z_0-9]*)\s*:=", text):
+            names.add(m.group(1))
+        for m in re.finditer(r"\(([a-z_][A-Za-z_0-9]*(?:\s*,\s*[a-z_][A-Za-z_0-9]*)+)\)\s*:=", text):
+            names.update(x.strip() for x in m.group(1).split(","))
+        for m in re.finditer(r"[(,]\s*([a-z_][A-Za-z_0-9]*)\s*:\s*(?:\(|\[|int|float|string|bool|any|mut|struct)", text):
+            names.add(m.group(1))
+    kw = {"self", "mut", "return", "loop", "while", "for", "if", "else", "true", "false", "struct", "mod", "break", "continue", "match", "import", "in"}
+    return sorted(n for n in names if n not in kw and not n[0].isupper())
+
+
 def templates():
     T = []
+    # names bound by operator implementations must not leak into, or overwrite, the caller's scope:
+    # the victim is a PARAMETER (read at run time, after the operator ran in the same scope layer)
+    src3 = ("array", [I(1), ("f", 2.5), I(3)])
+    ops = {
+        "tfilter": lambda: ("post", "collect", ("tfilter", ("post", "iter", src3), INT)),
+        "collect": lambda: ("post", "collect", ("post", "iter", ("array", [I(1), I(2)]))),
+        "sum": lambda: ("post", "sum", ("post", "iter", ("array", [I(1), I(2)]))),
+        "all": lambda: ("post", "all", ("post", "iter", ("array", [("true",)]))),
+        "bitand": lambda: ("post", "bitand", ("post", "iter", ("array", [I(3)]))),
+        "map": lambda: ("post", "collect", ("bin", "map", ("post", "iter", ("array", [I(1)])), ("fn", [("e", INT)], INT, [("return", V("e"))]))),
+        "filter": lambda: ("post", "collect", ("bin", "filter", ("post", "iter", ("array", [I(1)])), ("fn", [("e", INT)], BOOL, [("return", ("true",))]))),
+        "partition": lambda: ("bin", "partition", ("post", "iter", ("array", [I(1)])), ("fn", [("e", INT)], BOOL, [("return", ("true",))])),
+        "reduce": lambda: ("reduce", ("post", "iter", ("array", [I(1)])), I(0), ("fn", [("a", INT), ("b", INT)], INT, [("return", V("a"))])),
+        "for": lambda: ("for", "q", ("post", "iter", ("array", [I(1)])), ("block", [V("q")])),
+    }
+    for w in operator_internal_names():
+        for on, mk in ops.items():
+            T.append([("fndecl", "run", [(w, INT)], ("any",), [("set", "r", mk()), ("return", ("tuple", [V(w), V("r")]))]),
+                      ("call", V("run"), [I(7)])])
+        # and a local declared in the same layer, of another type than the helper's binding
+        T.append([IDF, ("fndecl", "run", [], ("any",), [("set", w, ("s", "mine")), ("set", "r", ops["tfilter"]()),
+                                                          ("set", "r2", ops["map"]()), ("return", ("tuple", [V(w), V("r"), V("r2")]))]),
+                  ("call", V("run"), [])])
     # every consumer of a user-written iterator that declares the consumer's name `x`
     consumers = {
         "collect": ("post", "collect", V("it")),
@@ -58,6 +112,7 @@ def templates():
         "match": [("match", ("call", V("idf"), [I(2)]), [("ty", "x", INT, ("block", [V("x")]))])],
     }
     scopes = {
+        "none": lambda b: b if b[0][0] not in ("set", "destruct", "fndecl") else [("block", b)],   # the binder construct itself is the only scope
         "block": lambda b: [("block", b)],
         "if": lambda b: [("if", ("bin", "eq", ("call", V("idf"), [I(1)]), I(1)), ("block", b), ("block", []))],
         "loop": lambda b: [("set", "n", ("mut", INT, I(0))), ("while", ("bin", "lt", ("pre", "deref", V("n")), I(2)), ("block", [("assign", "add", V("n"), I(1))] + b))],
